@@ -117,6 +117,7 @@ theorem toH5_specWF (c : Utf8) (hc : c.RT) (dc : DateC δ) (t : Src α) (genBy :
     by simpa using written_groups c dc t genBy date now csr csc,
     written_ids c hc _ _ _ _, written_ids c hc _ _ _ _,
     mdOK_mdTree c hc t.obs t.omd hw.omdLen hmo _ rfl, mdOK_mdTree c hc t.samp t.smd hw.smdLen hms _ rfl,
+    gmdOK_axTree c hc _ _ _ _ hw.ogmdKeys, gmdOK_axTree c hc _ _ _ _ hw.sgmdKeys,
     written_view c _ _ _ csr _ _ _ hv.csrWF hv.csrNZ hv.csrMajor hv.csrMinor hz,
     written_view c _ _ _ csc _ _ _ hv.cscWF hv.cscNZ hv.cscMajor hv.cscMinor ((views_sameCount t csr csc hw hv).trans hz),
     written_decode c hc dc t genBy date now csr csc hw hv⟩
@@ -164,7 +165,7 @@ def demoSrc : Src Int :=
 def demoCsr : CS Int := { nMajor := 2, nMinor := 3, indptr := [0, 2, 3], indices := [2, 0, 2], data := [2, 1, -4] }
 def demoCsc : CS Int := { nMajor := 3, nMinor := 2, indptr := [0, 1, 1, 3], indices := [0, 0, 1], data := [1, 2, -4] }
 
-example : SrcWF demoSrc := ⟨by decide, by decide, by decide, by decide⟩
+example : SrcWF demoSrc := ⟨by decide, by decide, by decide, by decide, by decide, by decide⟩
 example : mdDomain demoSrc.omd = true := by decide
 example : mdDomain demoSrc.smd = true := by decide
 example : demoCsr.wfb = true ∧ demoCsc.wfb = true := by decide
